@@ -10,6 +10,11 @@ Transcribed from `connectionpool.py` (`_new_conn`, `_get_conn`, `_put_conn`, `_m
 (request/response state machine, `begin`, `read`, `_close_conn`, `close`) and `io.BufferedReader`
 (private read-ahead buffer) that are on the path.
 
+`urlopen` can also fail *outside* the I/O steps of an attempt, and the scripts say where: before the
+checkout (`preflight`: `set_file_position` on a file-like body that cannot be rewound, `_get_timeout` on a
+timeout that `Timeout` rejects) and in the wait between two attempts (`waitExc`: `Retry-After` that does not
+parse, `time.sleep` interrupted).
+
 Ids are indices: connection `c` is `conns[c]`, socket `k` is `socks[k]`, response `r` is `resps[r]`.
 A socket is *open* exactly as long as somebody references it (`conn.sock`, or a reader made by
 `sock.makefile`) — that is CPython's `_io_refs`/`_closed` protocol; the `close k` event is logged at
@@ -121,6 +126,15 @@ inductive ConnectOut | ok | refused | timeout | nameRes | interrupt
 deriving Repr, DecidableEq
 inductive SendOut | ok | epipe | reset | osError | interrupt
 deriving Repr, DecidableEq
+/-- `set_file_position(body, body_pos)` at the entry of an `urlopen` invocation that has a file-like body
+and a recorded position: the `seek` works, or it raises `OSError` (`UnrewindableBodyError`) -/
+inductive PreOut | ok | unrewindable
+deriving Repr, DecidableEq
+/-- the wait between two attempts (`retries.sleep_for_retry(response)` / `retries.sleep(response)`) when
+the intermediate response carries a `Retry-After` header: the header parses and `time.sleep` returns, the
+header does not parse (`InvalidHeader`), `time.sleep` is interrupted (a `BaseException`) -/
+inductive WaitOut | ok | invalidHeader | interrupt
+deriving Repr, DecidableEq
 
 /-- the environment's script for ONE attempt (one `urlopen` invocation) -/
 structure Attempt where
@@ -136,6 +150,9 @@ structure Attempt where
   trailers : List Nat := []        -- chunked reply: the lengths of the trailer fields
   hold : Nat := 0                  -- the server holds back the last `hold` bytes of what follows the head and
                                    -- delivers them when the next request arrives on the connection
+  pre : PreOut := .ok              -- consulted only if this invocation rewinds a file-like body
+  wait : WaitOut := .ok            -- consulted only if `urlopen` waits after this attempt's response (a retried /
+                                   -- redirected response with a `Retry-After` header)
 deriving Repr
 
 /-- one chunk: `<size>\r\n<data>\r\n` -/
@@ -871,6 +888,10 @@ structure ReqCfg where
   redirect : Bool := true
   methodRetryable : Bool := true    -- `Retry._is_method_retryable(method)`
   isHead : Bool := false
+  fileBody : Bool := false          -- `body` is a file-like object (it has `tell` / `seek`)
+  bodyPos : Bool := false           -- `body_pos is not None` on entry (passed by the caller, or recorded by the
+                                    -- previous invocation of the chain)
+  badTimeout : Bool := false        -- the per-request `timeout` is one that `Timeout` rejects (`ValueError`)
 deriving Repr
 
 inductive RespOut | resp (r : Nat) | exc (e : Exc)
@@ -1004,12 +1025,44 @@ structure RespMeta where
 
 def markReturned (s : State) (r : Nat) : State := setResp s r fun x => { x with returned := true }
 
+/-- the keyword arguments of the recursive call after `body_pos = set_file_position(body, body_pos)`:
+the position of a file-like body has been recorded (`tell()`) -/
+def ReqCfg.hop (rc : ReqCfg) : ReqCfg := { rc with bodyPos := rc.bodyPos || rc.fileBody }
+
+/-- … and after a 303: `method = "GET"; body = None; body_pos = None` -/
+def ReqCfg.seeOther (rc : ReqCfg) : ReqCfg :=
+  { rc with methodRetryable := true, isHead := false, fileBody := false, bodyPos := false }
+
+/-- what `urlopen` raises between its entry and the `try:` (nothing has been taken from the pool yet, and
+no `finally` clause runs): `body_pos = set_file_position(body, body_pos)` rewinds a file-like body whose
+position is known and raises `UnrewindableBodyError` when the `seek` fails;
+`timeout_obj = self._get_timeout(timeout)` raises `ValueError` for a per-request timeout that `Timeout`
+rejects (since the repair of finding `put-without-checkout` this statement stands before the `try:`) -/
+def preflight (rc : ReqCfg) (a : Attempt) : Option Exc :=
+  if rc.bodyPos && a.pre == .unrewindable then some (exc Gen.cU3UnrewindableBodyError)
+  else if rc.badTimeout then some (exc Gen.cValueError)
+  else none
+
+/-- `retries.sleep_for_retry(response)` (redirect) / `retries.sleep(response)` (status retry) between two
+attempts.  Without a `Retry-After` header nothing can happen (`backoff_factor = 0`); with one,
+`parse_retry_after` raises `InvalidHeader` for a value that is neither a number nor a date, and `time.sleep`
+may be interrupted -/
+def waitExc (retryAfter : Bool) : WaitOut → Option Exc
+  | .ok => none
+  | .invalidHeader => if retryAfter then some (exc Gen.cU3InvalidHeader) else none
+  | .interrupt => if retryAfter then some (exc Gen.cKeyboardInterrupt) else none
+
 /-- a whole `urlopen` call; every invocation (the first and each recursive one) consumes one
 attempt record -/
 def request (s : State) (rid : Nat) (rc : ReqCfg) (retries : Retry) : List Attempt → State × Result
   | [] => (s, .scriptExhausted)
   | a :: rest =>
+    -- body_pos = set_file_position(body, body_pos); timeout_obj = self._get_timeout(timeout)
+    match preflight rc a with
+    | some e => (s, .raised e)
+    | none =>
     -- clean_exit = False; release_this_conn = release_conn; conn = None
+    -- try: conn = self._get_conn(timeout=pool_timeout)
     match getConn s with
     | (s, .error e) =>
       match handleError false retries rc.methodRetryable e.cls with
@@ -1022,7 +1075,7 @@ def request (s : State) (rid : Nat) (rc : ReqCfg) (retries : Retry) : List Attem
         | (s, none) => (s, .raised e')
       | .retry retries' => match discard s none with
         | (s, some e'') => (s, .raised e'')
-        | (s, none) => request s rid rc retries' rest
+        | (s, none) => request s rid rc.hop retries' rest
     | (s, .ok c) =>
       match makeRequest s c rid a rc with
       | (s, .exc e) =>
@@ -1036,7 +1089,7 @@ def request (s : State) (rid : Nat) (rc : ReqCfg) (retries : Retry) : List Attem
           | (s, none) => (s, .raised e')
         | .retry retries' => match discard s (some c) with
           | (s, some e'') => (s, .raised e'')
-          | (s, none) => request s rid rc retries' rest        -- `if not conn: return self.urlopen(…)`
+          | (s, none) => request s rid rc.hop retries' rest        -- `if not conn: return self.urlopen(…)`
       | (s, .resp r) =>
         -- clean_exit = True; finally: if release_this_conn: self._put_conn(conn)
         match (if rc.release then putConn s (some c) else (s, none)) with
@@ -1049,7 +1102,7 @@ def request (s : State) (rid : Nat) (rc : ReqCfg) (retries : Retry) : List Attem
             | some rs => rs.status
             | none => 0
           if rc.redirect && isRedirect s r hd.location then
-            let rc' := if status == 303 then { rc with methodRetryable := true, isHead := false } else rc
+            let rc' := if status == 303 then rc.seeOther else rc.hop
             match retries.incrementResp with
             | none =>
               if retries.raiseOnRedirect then
@@ -1058,9 +1111,13 @@ def request (s : State) (rid : Nat) (rc : ReqCfg) (retries : Retry) : List Attem
                 | (s, none) => (s, .raised (exc Gen.cU3MaxRetryError))
               else (markReturned s r, .resp r)
             | some retries' =>
+              -- response.drain_conn(); retries.sleep_for_retry(response); return self.urlopen(…)
               match drainConn s r with
               | (s, some e) => (s, .raised e)
-              | (s, none) => request s rid rc' retries' rest
+              | (s, none) =>
+                match waitExc hd.retryAfter a.wait with
+                | some e => (s, .raised e)
+                | none => request s rid rc' retries' rest
           else if retries.isRetry rc.methodRetryable status hd.retryAfter then
             match retries.incrementResp with
             | none =>
@@ -1068,9 +1125,13 @@ def request (s : State) (rid : Nat) (rc : ReqCfg) (retries : Retry) : List Attem
               | (s, some e) => (s, .raised e)
               | (s, none) => (s, .raised (exc Gen.cU3MaxRetryError))
             | some retries' =>
+              -- response.drain_conn(); retries.sleep(response); return self.urlopen(…)
               match drainConn s r with
               | (s, some e) => (s, .raised e)
-              | (s, none) => request s rid rc retries' rest
+              | (s, none) =>
+                match waitExc hd.retryAfter a.wait with
+                | some e => (s, .raised e)
+                | none => request s rid rc.hop retries' rest
           else (markReturned s r, .resp r)
 
 /-! ## what the caller does with a response -/
